@@ -2213,7 +2213,12 @@ impl<'a> Socket<'a> {
             tcp_trace!("starting zero-window-probe timer for t+{}", delay);
             self.timer.set_for_zero_window_probe(cx.now(), delay);
         }
-        if self.remote_win_len != 0 && self.timer.is_zero_window_probe() {
+        // There is nothing to probe for once the window has opened or everything we had
+        // queued has been acknowledged. (A probe timer left armed with an empty transmit
+        // buffer makes dispatch() emit empty segments without ever rewinding it.)
+        if (self.remote_win_len != 0 || self.tx_buffer.is_empty())
+            && self.timer.is_zero_window_probe()
+        {
             tcp_trace!("stopping zero-window-probe timer");
             self.timer.set_for_idle(cx.now(), self.keep_alive);
         }
